@@ -15,8 +15,9 @@ tvars == <<vars, tid, l, bad, drift>>
 Ev == Traces[tid].events
 
 DescOf(d) == [kind |-> d.kind, prefix |-> d.prefix, handlers |-> Range(d.handlers), priv |-> Range(d.priv),
-              comm |-> d.comm, anon |-> d.anon, tracked |-> Range(d.tracked)]
-NoTun == [circuits |-> {}, exits |-> {}, relays |-> <<>>]
+              comm |-> d.comm, anon |-> d.anon, tracked |-> Range(d.tracked), xbt |-> d.xbt, xipv8 |-> d.xipv8,
+              dev |-> Dev]
+NoTun == [circuits |-> {}, exits |-> {}, relays |-> <<>>, stale |-> {}, xon |-> {}]
 
 TraceInit == /\ tid \in 1..Len(Traces) /\ l = 1 /\ bad = "" /\ drift = 0
              /\ desc = [i \in DOMAIN Traces[tid].desc |-> DescOf(Traces[tid].desc[i])]
@@ -39,7 +40,13 @@ TabOf(e) == LET pm == [pf \in {e.pmap[i].p : i \in DOMAIN e.pmap} |->
 TunOf(e) == [circuits |-> Range(e.circuits), exits |-> Range(e.exits),
              relays |-> [c \in {e.relays[i].cid : i \in DOMAIN e.relays} |->
                            LET r == e.relays[CHOOSE i \in DOMAIN e.relays : e.relays[i].cid = c]
-                           IN [dir |-> r.dir, count |-> r.count]]]
+                           IN [dir |-> r.dir, count |-> r.count, to |-> r.to, rdv |-> r.rdv]],
+             stale |-> Range(e.stale), xon |-> Range(e.xon)]
+(* what the table actions are compared on (the relay_early counters move with the deliveries only) *)
+Shape(t) == [c |-> t.circuits, x |-> t.exits, r |-> DOMAIN t.relays, stale |-> t.stale, xon |-> t.xon]
+(* heart beats the spec tracks itself (relay routes, circuits), on the entries both sides know *)
+BeatsAgree(t, u) == \A s \in Entries(t) \cap Entries(u) : s[1] \in {"r", "c"} => (s \in t.stale <=> s \in u.stale)
+XPktOf(e) == [len |-> e.len, head |-> e.head, lastb |-> e.lastb]
 
 PktOf(e) == [len |-> e.len, head |-> e.head, enc |-> e.enc, inner |-> e.inner]
 
@@ -74,7 +81,25 @@ TraceNext ==
                                /\ Verdict("", TRUE)
          [] e.op = "open" -> SetOpen(e.b) /\ Verdict("", TRUE)
          [] e.op = "tables" -> /\ tun' = TunOf(e) /\ UNCHANGED <<desc, tab, open, last, nops, nrecv>>
-                               /\ Verdict("", TRUE)
+                               /\ Verdict("", BeatsAgree(tun, TunOf(e)))
+         \* circuits / relay pairs / rendezvous links / exit sockets put in place (the circuit protocol: C04, C05, C08)
+         [] e.op = "install" -> /\ tun' = TunOf(e) /\ UNCHANGED <<desc, tab, open, last, nops, nrecv>>
+                                /\ Verdict("", TRUE)
+         \* the table actions were run on the real node (remove_relay / remove_circuit / remove_exit_socket, the clock,
+         \* do_circuits -> do_remove): the tables they left are taken over, a difference from the spec's result is drift
+         [] e.op = "rmtun" -> /\ tun' = TunOf(e) /\ last' = NoLast /\ UNCHANGED <<desc, tab, open, nops, nrecv>>
+                              /\ Verdict("", <<e.t, e.cid>> \in Entries(tun)
+                                              /\ Shape(TunOf(e)) = Shape(DropEntries(tun, {<<e.t, e.cid>>})))
+         [] e.op = "tick"  -> /\ tun' = TunOf(e) /\ last' = NoLast /\ UNCHANGED <<desc, tab, open, nops, nrecv>>
+                              /\ Verdict("", Shape(TunOf(e)) = Shape(TickOf(tun)))
+         [] e.op = "sweep" -> /\ tun' = TunOf(e) /\ last' = NoLast /\ UNCHANGED <<desc, tab, open, nops, nrecv>>
+                              /\ Verdict("", Shape(TunOf(e)) = Shape(SweepOf(tun)))
+         \* a datagram at a socket the tables do not hold is no execution of the node ("nosocket": the log is wrong)
+         [] e.op = "xrecv" -> IF e.xc \in tun.xon
+                              THEN /\ ExitReceive(e.o, e.xc, XPktOf(e), e.fam)
+                                   /\ Verdict(IF e.raised THEN "raised" ELSE "",
+                                              ~e.raised /\ e.fwd = ExitOut(e.o, XPktOf(e), e.fam).rel)
+                              ELSE UNCHANGED vars /\ Verdict("nosocket", FALSE)
          [] e.op = "recv" -> Receive(PktOf(e), e.via, e.ft) /\ Verdict(RecvReason(e), RecvExact(e))
   /\ l' = l + 1 /\ UNCHANGED tid
 
